@@ -16,6 +16,10 @@ import Lomond.Model.Attempt
 import Lomond.Model.Proxy
 import Lomond.Model.Transport
 import Lomond.Model.Reconnect
+import Lomond.Model.ConnectLink
+import Lomond.Model.PersistLink
+import Lomond.Model.ZFrame
+import Lomond.Model.DeflEnc
 import Lomond.Generated.Code
 
 namespace Lomond.Driver
@@ -132,41 +136,110 @@ def showObs : Obs → String
 
 def b2s (b : Bool) : String := if b then "1" else "0"
 
+/-- the three sections of a `core` line: configuration, environment script, reaction table -/
+def coreOfParts (cfgS envS reactS : String) : Cfg × React × List EnvStep :=
+  let ct := cfgS.splitOn " "
+  let wf := (kv ct "wfail" "-")
+  let wfl : List Nat := if wf = "-" then [] else (wf.splitOn ",").map natOf
+  let conn := kv ct "conn" "ok"
+  let cfg : Cfg :=
+    { v := parseVariant (kv ct "v" "111110")
+      poll := natOf (kv ct "poll" "5")
+      pingRate := natOf (kv ct "prate" "30")
+      pingTimeout := natOf (kv ct "ptimeout" "0")
+      autoPong := kv ct "autopong" "1" = "1"
+      closeTimeout := natOf (kv ct "ctimeout" "30")
+      connect := if conn = "ok" then .ok false else if conn = "okproxy" then .ok true
+                 else if conn = "sockfail" then .socketFail
+                 else if conn = "selfail" then .selFail false
+                 else if conn = "selfailproxy" then .selFail true else .otherFail
+      request := hexD (kv ct "req" "")
+      -- not an input: the accept value for the key found in the request (`Handshake.cfgOfRequest`);
+      -- a `chal=` token of an old line is ignored
+      challenge := Handshake.challengeOfRequest (hexD (kv ct "req" ""))
+      writeFails := fun k => wfl.contains k
+      maskKey := testKey
+      inflate := if kv ct "zsafe" "0" = "1" then Inflate.inflateAllSafe else Inflate.inflateAll }
+  let env := (envS.splitOn " ").filterMap parseEnvTok
+  let table := parseReactions (reactS.splitOn " ")
+  let react : React := fun hist =>
+    match table.find? (fun p => p.1 + 1 = hist.length) with
+    | some p => p.2
+    | none => []
+  (cfg, react, env)
+
+def showEnd (s : Sys) : String :=
+  "END:sock=" ++ b2s s.sockOpen ++ ":sel=" ++ b2s s.selOpen ++
+    ":closing=" ++ b2s s.closing ++ ":closed=" ++ b2s s.closed
+
 def runCore (line : String) : String :=
   match line.splitOn " | " with
   | [cfgS, envS, reactS] =>
-    let ct := cfgS.splitOn " "
-    let wf := (kv ct "wfail" "-")
-    let wfl : List Nat := if wf = "-" then [] else (wf.splitOn ",").map natOf
-    let conn := kv ct "conn" "ok"
-    let cfg : Cfg :=
-      { v := parseVariant (kv ct "v" "111110")
-        poll := natOf (kv ct "poll" "5")
-        pingRate := natOf (kv ct "prate" "30")
-        pingTimeout := natOf (kv ct "ptimeout" "0")
-        autoPong := kv ct "autopong" "1" = "1"
-        closeTimeout := natOf (kv ct "ctimeout" "30")
-        connect := if conn = "ok" then .ok false else if conn = "okproxy" then .ok true
-                   else if conn = "sockfail" then .socketFail
-                   else if conn = "selfail" then .selFail false
-                   else if conn = "selfailproxy" then .selFail true else .otherFail
-        request := hexD (kv ct "req" "")
-        -- not an input: the accept value for the key found in the request (`Handshake.cfgOfRequest`);
-        -- a `chal=` token of an old line is ignored
-        challenge := Handshake.challengeOfRequest (hexD (kv ct "req" ""))
-        writeFails := fun k => wfl.contains k
-        maskKey := testKey
-        inflate := if kv ct "zsafe" "0" = "1" then Inflate.inflateAllSafe else Inflate.inflateAll }
-    let env := (envS.splitOn " ").filterMap parseEnvTok
-    let table := parseReactions (reactS.splitOn " ")
-    let react : React := fun hist =>
-      match table.find? (fun p => p.1 + 1 = hist.length) with
-      | some p => p.2
-      | none => []
+    let (cfg, react, env) := coreOfParts cfgS envS reactS
     let s := runAll cfg react env
     let obs := s.trace.reverse.map showObs
-    " ".intercalate (obs ++ ["END:sock=" ++ b2s s.sockOpen ++ ":sel=" ++ b2s s.selOpen ++
-      ":closing=" ++ b2s s.closing ++ ":closed=" ++ b2s s.closed])
+    " ".intercalate (obs ++ [showEnd s])
+  | _ => "bad-op"
+
+/-- the final state of the connection described by a `core` line -/
+def coreSys (line : String) : Option Sys :=
+  match line.splitOn " | " with
+  | [cfgS, envS, reactS] =>
+    let (cfg, react, env) := coreOfParts cfgS envS reactS
+    some (runAll cfg react env)
+  | _ => none
+
+/-- C03: `corez <z0,z1,…|-> | <core line>`: everything the client put on the wire during the
+    connection of the `core` line, one hex token per `sendall`, compressed frames included
+    (`ZFrame.wireAll`); the compressor is the table "the i-th plaintext compressed on this
+    connection gives `z_i`" (what zlib returned in the real run) -/
+def runCoreZ (line : String) : String :=
+  match line.splitOn " | " with
+  | zs :: rest =>
+    let table : List Bytes := if zs = "-" then [] else (zs.splitOn ",").map hexD
+    match coreSys (" | ".intercalate rest) with
+    | some s =>
+      let deflate : ZFrame.Deflater := fun hist _ => table.getD hist.length []
+      " ".intercalate ((ZFrame.wireAll deflate s.cfg s.trace).map hexOfBytes)
+    | none => "bad-op"
+  | _ => "bad-op"
+
+/-- C06: `deflenc <block>/<block>/…`: the reference encoder (Model/DeflEnc.lean) on one message.
+    A block is `<kind><0|1>:<token>,<token>,…` — kind `s` = stored if possible, `f` = fixed Huffman,
+    `d` = dynamic Huffman, written `d<0|1>;<ll>;<dl>:…` with the literal/length and the distance
+    code lengths as strings of hex digits (one per symbol); the digit after the kind is BFINAL; a
+    token is `L<byte>` or `C<distance>.<length>`; `-` = no blocks.  Prints the payload (without
+    the `00 00 ff ff` tail) and which dynamic blocks were really written as such
+    (`dyn=<0|1>…`), or `unencodable` if a token is out of range. -/
+def runDeflEnc (args : List String) : String :=
+  let parseTok (t : String) : Deflate.Token :=
+    if t.startsWith "L" then .lit (natOf (t.drop 1).toString)
+    else
+      match ((t.drop 1).toString).splitOn "." with
+      | [d, n] => .copy (natOf d) (natOf n)
+      | _ => .copy 0 0
+  let lensOf (x : String) : List Nat := x.toList.map fun c => (hexVal c).getD 0
+  let parseBlk (b : String) : DeflEnc.Kind × Deflate.Blk :=
+    match b.splitOn ":" with
+    | [hd, toks] =>
+      let hs := hd.splitOn ";"
+      let h0 := hs.headD ""
+      let kind : DeflEnc.Kind :=
+        if h0.startsWith "s" then .stored
+        else if h0.startsWith "d" then .dyn (lensOf (hs.getD 1 "")) (lensOf (hs.getD 2 ""))
+        else .fixed
+      (kind, { final := h0.endsWith "1",
+               toks := if toks = "" then [] else (toks.splitOn ",").map parseTok })
+    | _ => (.fixed, { final := false, toks := [.copy 0 0] })
+  match args with
+  | [spec] =>
+    let kbs := if spec = "-" || spec = "" then [] else (spec.splitOn "/").map parseBlk
+    if kbs.all (fun sb => DeflEnc.Blk.ok sb.2) then
+      let dyn := kbs.filterMap fun sb => match sb.1 with
+        | .dyn ll dl => some (if DeflEnc.dynOk ll dl sb.2.toks then "1" else "0")
+        | _ => none
+      "ok " ++ hexOfBytes (DeflEnc.encMsgK kbs) ++ " dyn=" ++ String.join dyn
+    else "unencodable"
   | _ => "bad-op"
 
 def runUtf8 (args : List String) : String :=
@@ -559,9 +632,91 @@ def runEnum (line : String) : String :=
 
 end Thr
 
+/-! ### composed models (Model/PersistLink.lean, Model/ConnectLink.lean) -/
+
+/-- whole units of a pass-through parameter token (`5/1`, `N`) -/
+def natOfTok (t : String) : Nat :=
+  if t = "N" then 0 else (ratOf t).floor.toNat
+
+/-- C16: `persistcore <cfg> || <draw> <exit> ## <core line> || …` — `persist()` over the core model:
+    each attempt is one `core` line (its own `poll` / `prate` / `ptimeout` are overridden by persist's) -/
+def runPersistCore (line : String) : String :=
+  match line.splitOn " || " with
+  | [] => "bad-op"
+  | cfgS :: secs =>
+    let ct := cfgS.splitOn " "
+    let pollT := kv ct "poll" "5/1"
+    let prateT := kv ct "prate" "30/1"
+    let ptimeoutT := kv ct "ptimeout" "N"
+    let cfg : Persist.Cfg Nat :=
+      { minWait := ratOf (kv ct "min" "5"), maxWait := ratOf (kv ct "max" "30"),
+        poll := natOfTok pollT, pingRate := natOfTok prateT, pingTimeout := natOfTok ptimeoutT }
+    let attempts : List (Option PersistLink.Attempt) := secs.map fun sec =>
+      match sec.splitOn " ## " with
+      | [hd, coreS] =>
+        match (hd.splitOn " ").filter (fun w => w ≠ ""), coreS.splitOn " | " with
+        | [u, x], [cfgC, envS, reactS] =>
+          let (c, react, env) := coreOfParts cfgC envS reactS
+          some { base := c, react := react, env := env, draw := ratOf u, exit := x = "1" }
+        | _, _ => none
+      | _ => none
+    if attempts.any Option.isNone then "bad-op"
+    else
+      let res := PersistLink.persistCore cfg (attempts.filterMap id)
+      let showO : Persist.Obs Event Nat → String
+        | .connect _ _ _ => "C:" ++ pollT ++ "," ++ prateT ++ "," ++ ptimeoutT
+        | .yield (.ev e) => showEvent e
+        | .yield (.backOff d) => "B:" ++ showRat d
+        | .random => "R"
+        | .wait d => "X:" ++ showRat d
+      " ".intercalate (res.1.map showO ++
+        [match res.2 with | .exited => "END:exited" | .running => "END:running" | .inAttempt => "INCOMPLETE"])
+
+def showCall : Connect.Call → String
+  | .socket i => "socket" ++ toString i
+  | .connect i => "connect" ++ toString i
+  | .close i => "close" ++ toString i
+
+/-- C09 / C19: `link url=… http=… https=… wrap=… sel=… gai=<-|o1,o2,…> | <reads> | <core cfg> | <env> | <reactions>`
+    — the composed trace of one connection (`ConnectLink.composed`): core observations as in `core`,
+    connection-phase actions as `P:<proxy token>`, socket-module calls as `S:<call>`.  `wfail` (in the core
+    section) counts the `sendall`s of the whole connection; `conn` there is ignored. -/
+def runLink (line : String) : String :=
+  match line.splitOn " | " with
+  | [linkS, readsS, cfgS, envS, reactS] =>
+    let lt := linkS.splitOn " "
+    let (base, react, env) := coreOfParts cfgS envS reactS
+    match Proxy.mkTarget (hexD (kv lt "url" "")) with
+    | none => "CTOR:ValueError"
+    | some tgt =>
+      let g := kv lt "gai" "ok"
+      let gai : Option (List Connect.AddrOutcome) :=
+        if g = "-" then none
+        else if g = "" then some []
+        else some ((g.splitOn ",").map fun t =>
+          if t = "ok" then Connect.AddrOutcome.ok else if t = "sfail" then .sockCreateFail else .connectFail)
+      let i : ConnectLink.Inputs :=
+        { ws := { target := tgt, proxyHttp := optHex (kv lt "http" "-"), proxyHttps := optHex (kv lt "https" "-"),
+                  request := base.request }
+          gai := gai
+          writeFails := base.writeFails
+          reads := (readsS.splitOn " ").filterMap parseRead
+          wrapOk := kv lt "wrap" "1" = "1"
+          selOk := kv lt "sel" "1" = "1" }
+      let showItem : ConnectLink.Item → String
+        | .core o => showObs o
+        | .io x => "P:" ++ showIo x
+        | .sock c => "S:" ++ showCall c
+      let s := runAll (ConnectLink.coreCfg base i) react env
+      " ".intercalate ((ConnectLink.composed base i react env).map showItem ++ [showEnd s])
+  | _ => "bad-op"
+
 def handle (line : String) : String :=
   if line.startsWith "core " then runCore (line.drop 5).toString
+  else if line.startsWith "corez " then runCoreZ (line.drop 6).toString
   else if line.startsWith "persist " then runPersist (line.drop 8).toString
+  else if line.startsWith "persistcore " then runPersistCore (line.drop 12).toString
+  else if line.startsWith "link " then runLink (line.drop 5).toString
   else if line.startsWith "threads-enum " then Thr.runEnum (line.drop 13).toString
   else if line.startsWith "threads " then Thr.runThreads (line.drop 8).toString
   else if line.startsWith "connect " then runConnect (line.drop 8).toString
@@ -575,6 +730,7 @@ def handle (line : String) : String :=
     | "inflatesafe" :: args => runInflate true args
     | "frame" :: args => runFrame args
     | "http" :: args => runHttp args
+    | "deflenc" :: args => runDeflEnc args
     | "reconnect" :: args => Reconnect.runDriver args
     -- differential test of harness/py2lean.py: evaluate a generated definition
     | "gen" :: name :: args => Gen.Code.dispatch name args
